@@ -64,7 +64,7 @@ P('C13', theorems=['Tcs.C13_any_two_backends', 'Tcs.C13_backends_agree', 'Tcs.C1
   aligned=[('mem:lib', 'sql:lib', 'C13: the same request history yields the same responses on every storage backend'),
            ('sql:lib', 'sqlre:lib', 'C13: closing and reopening the database between any two requests changes no later response')],
   plan={'quick': [hist('c13', 260, ALL3)], 'thorough': [hist('c13', 6000, ALL3), hist('long', 500, ALL3)]})
-P('C18', theorems=['Tcs.C18_spec', 'Tcs.C18_no_id', 'Tcs.C18_noop'],
+P('C18', theorems=['Tcs.C18_spec', 'Tcs.C18_no_id', 'Tcs.C18_noop', 'Tcs.C18_tables', 'Tcs.C18_tables_sql', 'Tcs.C18_tables_mem', 'Tcs.readsPure_sql', 'Tcs.readsPure_mem', 'Tcs.run_readOnly'],
   owned={'noop.dump'},
   oracles=[O.o_c18],
   plan={'quick': [hist('default', 220, LIBHTTP)], 'thorough': [hist('default', 4000, LIBHTTP)]})
@@ -74,8 +74,10 @@ def grammar(n, per, **kw):
     a.update(kw)
     return {'scen': 'grammar', 'args': a, 'n': n}
 
-P('C03', theorems=['Tcs.red_step', 'Tcs.C03_reduction', 'Tcs.C03_reduction_sublist', 'Tcs.red_init', 'Tcs.red_resp', 'Tcs.red_db'],
-  module='Tcs.Proofs.Reduction',
+P('C03', theorems=['Tcs.C03_linearizable_partial', 'Tcs.C03_from_init', 'Tcs.C03_no_overlap_5xx', 'Tcs.C03_no_double_accept', 'Tcs.C03Ex.C03_relaxation_needed',
+                   'Tcs.machine_linearizable', 'Tcs.runinv_run', 'Tcs.arel_step', 'Tcs.linrel_step', 'Tcs.C03_reduction_prefix',
+                   'Tcs.red_step', 'Tcs.C03_reduction', 'Tcs.C03_reduction_sublist', 'Tcs.red_init', 'Tcs.red_resp', 'Tcs.red_db'],
+  module='Tcs.Props.C03',
   owned={'conc.trace', 'conc.resp', 'dump.own', 'dump.other'},
   oracles=[O.o_c03],
   plan={'quick': [{'scen': 'sched', 'args': {}, 'n': 180}], 'thorough': [{'scen': 'sched', 'args': {}, 'n': 4000}, {'scen': 'sched', 'args': {'probe': '1', 'corpus': '0'}, 'n': 300}]})
@@ -87,8 +89,8 @@ P('C17', theorems=['Tcs.C17_flag_over_env', 'Tcs.C17_resolve_ignores_env_when_fl
   owned={'cfg.start', 'cfg.listen', 'cfg.dir', 'cfg.restart', 'http.status', 'http.urgency', 'http.headers'},
   oracles=[O.o_c17],
   plan={'quick': [{'scen': 'py:c17', 'args': {}, 'n': 24, 'shards': 8}], 'thorough': [{'scen': 'py:c17', 'args': {}, 'n': 300, 'shards': 12}]})
-P('C19', theorems=['Tcs.hyphenated_length', 'Tcs.hyphenated_hyphens', 'Tcs.hyphenated_lower', 'Tcs.parse_hyphenated', 'Tcs.hyphenated_inj', 'Tcs.parseUuid_lt'],
-  module='Tcs.Proofs.CodecProofs',
+P('C19', theorems=['Tcs.C19_row_roundtrip', 'Tcs.C19_encode_injective', 'Tcs.hyphenated_length', 'Tcs.hyphenated_hyphens', 'Tcs.hyphenated_lower', 'Tcs.parse_hyphenated', 'Tcs.hyphenated_inj', 'Tcs.parseUuid_lt'],
+  module='Tcs.Proofs.RowProofs',
   owned={'fixture.decode', 'state.dump', 'gcv.kind', 'gcv.ids', 'gcv.payload', 'http.status', 'http.headers', 'http.body', 'av.kind'},
   oracles=[O.o_c19],
   plan={'quick': [{'scen': 'fixture', 'args': {'shards': 4}, 'n': 4, 'shards': 4}], 'thorough': [{'scen': 'fixture', 'args': {'shards': 7}, 'n': 7, 'shards': 7}]})
